@@ -470,3 +470,35 @@ package ast
 //@   props C10
 //@   assume visitor.Err == nil ==> len(visitor.typeStack) > 0
 //@   modifies *
+
+// Symbol() only reads
+//@ func (*AllOfSetExprNode).Symbol
+//@   pure
+//@ func (*AnyOfSetExprNode).Symbol
+//@   pure
+//@ func (*AnyTypeSymbolNode).Symbol
+//@   pure
+//@ func (*BoolSymbolNode).Symbol
+//@   pure
+//@ func (*CountSetExprNode).Symbol
+//@   pure
+//@ func (*DatetimeSymbolNode).Symbol
+//@   pure
+//@ func (*Float64SymbolNode).Symbol
+//@   pure
+//@ func (*Int64SymbolNode).Symbol
+//@   pure
+//@ func (*IsEmptySetExprNode).Symbol
+//@   pure
+//@ func (*SortFieldNode).Symbol
+//@   pure
+//@ func (*StringSymbolNode).Symbol
+//@   pure
+//@ func (*UntypedSymbolNode).Symbol
+//@   pure
+//@ func (*subQueryNode).Symbol
+//@   pure
+//@ func NewListener
+//@   props C10
+//@   pure
+//@   ensures result != nil
